@@ -219,9 +219,11 @@ DepositOrWithdraw(st, a) ==
   IF a.a \notin REGISTERED THEN Fail(st, "ErrNoClientChainAssetKey") ELSE
   LET d == IF a.dir = 1 THEN a.x ELSE NNeg(a.x) IN
   IF KIND[a.a] = "nat" THEN Ok(st) ELSE
+  \* both updates inside one cache context (since the fix "apply the staker-balance and
+  \* staking-total updates of a deposit/withdrawal atomically")
   LET r1 == UpdStk(st, a.s, a.a, d, d, 0) IN
-  IF r1.err # "" THEN r1 ELSE
-  UpdTotal(r1.st, a.a, d)
+  IF r1.err # "" THEN Fail(st, r1.err) ELSE
+  WithCache(st, UpdTotal(r1.st, a.a, d))
 
 (***************************************************************************)
 (* x/delegation/keeper/delegation.go: delegateTo  a = [s, a, o, x]          *)
@@ -514,6 +516,103 @@ Apply(st, ev, a) ==
     [] ev = "NstUpdate"   -> UpdateNSTBalance(st, a)
     [] ev = "ReleaseHold" -> ReleaseHold(st, a.k)
     [] ev = "EndBlock"    -> LET r == EndBlock(st) IN [st |-> NextBlock(r.st), err |-> r.err]
+
+(***************************************************************************)
+(* Coverage goals: named branches of the transcription above, as predicates *)
+(* over one step (pre-store, event, arguments, result of Apply).  Used      *)
+(*  - by the bounded model to make TLC emit a shortest behaviour reaching   *)
+(*    each goal (goal-directed generation), and                            *)
+(*  - by the trace spec to count which goals the REAL executions reached    *)
+(*    (vacuity guard: a goal with zero hits means a branch was never        *)
+(*    exercised on the code).                                               *)
+(***************************************************************************)
+RateSkewed(st, o, a) ==
+  st.pool[<<o, a>>].ex /\ ~NEq(st.pool[<<o, a>>].tsh, DecFromInt(st.pool[<<o, a>>].amt, PREC))
+
+Goals(pre, ev, a, r) ==
+  LET ok == r.err = "" post == r.st
+      G(c, name) == IF c THEN {name} ELSE {}
+  IN
+  CASE ev = "Deposit" -> G(ok, "dep_ok")
+    [] ev = "Withdraw" ->
+         G(ok, "wd_ok") \cup
+         G(~ok /\ KIND[a.a] # "nat" /\ NGt(a.x, pre.stk[<<a.s, a.a>>].wd) /\ NLe(a.x, pre.total[a.a]), "wd_over_balance_within_total") \cup
+         G(~ok /\ KIND[a.a] # "nat" /\ NLe(a.x, pre.stk[<<a.s, a.a>>].wd) /\ NGt(a.x, pre.total[a.a]), "wd_within_balance_over_total")
+    [] ev = "Delegate" ->
+         G(ok /\ ~pre.pool[<<a.o, a.a>>].ex, "del_first_into_pool") \cup
+         G(ok /\ RateSkewed(pre, a.o, a.a), "del_skewed_rate") \cup
+         G(ok /\ KIND[a.a] # "nat" /\ pre.assoc[a.s] = a.o, "del_self") \cup
+         G(ok /\ KIND[a.a] = "nat", "del_native") \cup
+         G(ok /\ pre.del[<<a.s, a.a, a.o>>].ex /\ NIsZero(pre.del[<<a.s, a.a, a.o>>].sh), "del_again_after_empty") \cup
+         G(ok /\ pre.del[<<a.s, a.a, a.o>>].ex /\ NIsPos(pre.del[<<a.s, a.a, a.o>>].sh), "del_top_up") \cup
+         G(ok /\ \E s2 \in STAKERS \ {a.s} : NIsPos(pre.del[<<s2, a.a, a.o>>].sh), "del_with_codelegator") \cup
+         G(~ok /\ r.err = "ErrDelegationAmountTooBig", "del_over_withdrawable")
+    [] ev = "Undelegate" ->
+         LET d == pre.del[<<a.s, a.a, a.o>>] pl == pre.pool[<<a.o, a.a>>] IN
+         G(ok /\ NIsPos(post.del[<<a.s, a.a, a.o>>].sh), "und_partial") \cup
+         G(ok /\ NIsZero(post.del[<<a.s, a.a, a.o>>].sh) /\ NIsPos(post.pool[<<a.o, a.a>>].tsh), "und_full_exit_others_remain") \cup
+         G(ok /\ NIsZero(post.pool[<<a.o, a.a>>].tsh), "und_last_share") \cup
+         G(ok /\ RateSkewed(pre, a.o, a.a), "und_skewed_rate") \cup
+         G(ok /\ a.o \in HOLDOPS, "und_hold_placed") \cup
+         G(ok /\ KIND[a.a] = "nat", "und_native") \cup
+         G(ok /\ KIND[a.a] # "nat" /\ pre.assoc[a.s] = a.o, "und_self") \cup
+         G(ok /\ \E k \in DOMAIN pre.recs : pre.recs[k].s = a.s /\ pre.recs[k].a = a.a, "und_second_pending_same_staker_asset") \cup
+         G(~ok /\ r.err = "ErrInsufficientShares", "und_over_position")
+    [] ev = "Associate"  -> G(ok /\ \E x \in ASSETS : NIsPos(pre.del[<<a.s, x, a.o>>].sh), "assoc_with_position")
+    [] ev = "Dissociate" -> G(ok /\ \E x \in ASSETS : NIsPos(pre.del[<<a.s, x, pre.assoc[a.s]>>].sh), "dissoc_with_position")
+    [] ev = "ReleaseHold" -> G(ok, "hold_released")
+    [] ev = "EndBlock" ->
+         LET rel == DOMAIN pre.recs \ DOMAIN post.recs IN
+         G(rel # {}, "eb_release") \cup
+         G(Cardinality(rel) >= 2, "eb_release_two_in_one_block") \cup
+         G(\E k \in rel : NLt(pre.recs[k].actual, pre.recs[k].amt) /\ NIsPos(pre.recs[k].actual), "eb_release_partly_slashed") \cup
+         G(\E k \in rel : NIsZero(pre.recs[k].actual), "eb_release_fully_slashed") \cup
+         G(\E k \in rel : KIND[pre.recs[k].a] = "nat", "eb_release_native") \cup
+         G(\E k \in DOMAIN pre.recs : k \in DOMAIN post.recs /\ post.recs[k].complete # pre.recs[k].complete, "eb_requeue_held") \cup
+         G(\E k \in rel : pre.recs[k].complete < pre.h, "eb_release_after_requeue")
+    [] ev = "Slash" ->
+         LET pr == SlashProportion(pre, a) IN
+         G(ok /\ NIsPos(pr.p) /\ NLt(pr.p, PREC), "slash_partial") \cup
+         G(ok /\ NEq(pr.p, PREC), "slash_full") \cup
+         G(ok /\ \E x \in ASSETS : pre.slist[<<a.o, x>>].ex /\ ~post.slist[<<a.o, x>>].ex, "slash_wipes_pool") \cup
+         G(ok /\ \E k \in DOMAIN pre.recs : ~NEq(pre.recs[k].actual, post.recs[k].actual), "slash_hits_pending_record") \cup
+         G(ok /\ \E k \in DOMAIN pre.recs : NIsPos(pre.recs[k].actual) /\ NIsZero(post.recs[k].actual), "slash_record_to_zero") \cup
+         G(ok /\ \E k \in DOMAIN pre.recs : pre.recs[k].o = a.o /\ pre.recs[k].start < a.infr, "slash_spares_older_record") \cup
+         G(ok /\ Cardinality({x \in ASSETS : pre.pool[<<a.o, x>>].ex /\ NIsPos(pre.pool[<<a.o, x>>].amt)}) >= 2, "slash_multi_asset") \cup
+         G(ok /\ \E x \in ASSETS : pre.pool[<<a.o, x>>].ex /\ NIsZero(pre.pool[<<a.o, x>>].amt) /\ NIsPos(pre.pool[<<a.o, x>>].pend)
+                 /\ \E y \in ASSETS \ {x} : NIsPos(pre.pool[<<a.o, y>>].amt), "slash_pool_fully_unbonding_other_bonded") \cup
+         G(ok /\ a.infr = pre.h, "slash_infraction_at_current_height") \cup
+         G(<<a.o, a.id>> \in pre.sinfo, "slash_replay") \cup
+         G(NGt(a.factor, PREC), "slash_factor_above_one") \cup
+         G(r.err = "PANIC", "slash_zero_value_operator")
+    [] ev = "NstUpdate" ->
+         LET row == pre.stk[<<a.s, a.a>>]
+             recsOf == {k \in DOMAIN pre.recs : pre.recs[k].s = a.s /\ pre.recs[k].a = a.a}
+             pendTot == SumF(recsOf, LAMBDA k : pre.recs[k].actual)
+             want == NNeg(a.d)
+         IN
+         G(ok /\ NIsPos(a.d), "nst_up") \cup
+         G(ok /\ NIsNeg(a.d) /\ NLe(want, row.wd), "nst_down_within_withdrawable") \cup
+         G(ok /\ NIsNeg(a.d) /\ NGt(want, row.wd) /\ NLe(want, NAdd(row.wd, pendTot)) /\ recsOf # {}, "nst_down_ends_inside_pending_records") \cup
+         G(ok /\ NIsNeg(a.d) /\ NGt(want, NAdd(row.wd, pendTot)) /\ \E o \in OPERATORS : NIsPos(pre.del[<<a.s, a.a, o>>].sh), "nst_down_reaches_shares") \cup
+         G(NIsNeg(a.d) /\ NGt(want, NAdd(row.wd, pendTot)) /\ Cardinality({o \in OPERATORS : NIsPos(pre.del[<<a.s, a.a, o>>].sh)}) >= 2, "nst_down_shares_two_operators") \cup
+         G(~ok /\ r.err = "ErrAmountIsNotPositive", "nst_down_zero_share_row_error")
+    [] OTHER -> {}
+
+AllGoals ==
+  {"dep_ok", "wd_ok", "wd_over_balance_within_total", "wd_within_balance_over_total",
+   "del_first_into_pool", "del_skewed_rate", "del_self", "del_native", "del_again_after_empty", "del_top_up",
+   "del_with_codelegator", "del_over_withdrawable",
+   "und_partial", "und_full_exit_others_remain", "und_last_share", "und_skewed_rate", "und_hold_placed", "und_native",
+   "und_self", "und_second_pending_same_staker_asset", "und_over_position",
+   "assoc_with_position", "dissoc_with_position", "hold_released",
+   "eb_release", "eb_release_two_in_one_block", "eb_release_partly_slashed", "eb_release_fully_slashed",
+   "eb_release_native", "eb_requeue_held", "eb_release_after_requeue",
+   "slash_partial", "slash_full", "slash_wipes_pool", "slash_hits_pending_record", "slash_record_to_zero",
+   "slash_spares_older_record", "slash_multi_asset", "slash_pool_fully_unbonding_other_bonded",
+   "slash_infraction_at_current_height", "slash_replay", "slash_factor_above_one", "slash_zero_value_operator",
+   "nst_up", "nst_down_within_withdrawable", "nst_down_ends_inside_pending_records", "nst_down_reaches_shares",
+   "nst_down_shares_two_operators", "nst_down_zero_share_row_error"}
 
 (***************************************************************************)
 (* Properties (state predicates over a store and the ghosts G; the bounded  *)
